@@ -1688,6 +1688,63 @@ fn share_roundtrip(seed: u64) -> serde_json::Value {
     json!({"found": false, "routine": "share_roundtrip", "tried": tried})
 }
 
+// C13: Value::check_type against an independent layout reference; values are built valid and then damaged at ONE place
+// (a leaf one byte short/long, a child missing/extra, a leaf where a vector belongs and vice versa), at every position of the tree
+fn layout_ref(seed: u64) -> serde_json::Value {
+    use ciphercore_base::data_types::get_size_in_bits;
+    fn build(t: &Type) -> Value {
+        match t {
+            Type::Scalar(_) | Type::Array(_, _) => { let bits = get_size_in_bits(t.clone()).unwrap(); Value::from_bytes(vec![0u8; ((bits + 7) / 8) as usize]) }
+            _ => { let ts = ciphercore_base::data_types::get_types_vector(t.clone()).unwrap(); Value::from_vector(ts.iter().map(|x| build(x)).collect()) }
+        }
+    }
+    fn reference(v: &Value, t: &Type) -> bool {
+        match t {
+            Type::Scalar(_) | Type::Array(_, _) => { let bits = get_size_in_bits(t.clone()).unwrap(); match v.to_vector() { Ok(_) => false, Err(_) => v.access_bytes(|b| Ok(b.len() as u64 == (bits + 7) / 8)).unwrap() } }
+            _ => { let ts = ciphercore_base::data_types::get_types_vector(t.clone()).unwrap(); match v.to_vector() { Ok(kids) => kids.len() == ts.len() && kids.iter().zip(ts.iter()).all(|(k, x)| reference(k, x)), Err(_) => false } }
+        }
+    }
+    // all single damages of a valid value of type t
+    fn damaged(t: &Type, out: &mut Vec<(String, Value)>, path: String, rebuild: &dyn Fn(Value) -> Value) {
+        match t {
+            Type::Scalar(_) | Type::Array(_, _) => {
+                let bits = get_size_in_bits(t.clone()).unwrap(); let nb = ((bits + 7) / 8) as usize;
+                out.push((format!("{path}: leaf one byte long"), rebuild(Value::from_bytes(vec![0u8; nb + 1]))));
+                if nb > 0 { out.push((format!("{path}: leaf one byte short"), rebuild(Value::from_bytes(vec![0u8; nb - 1])))); }
+                out.push((format!("{path}: vector where a leaf belongs"), rebuild(Value::from_vector(vec![Value::from_bytes(vec![0u8; nb])]))));
+            }
+            _ => {
+                let ts = ciphercore_base::data_types::get_types_vector(t.clone()).unwrap();
+                let kids: Vec<Value> = ts.iter().map(|x| build(x)).collect();
+                out.push((format!("{path}: bytes where a vector belongs"), rebuild(Value::from_bytes(vec![0u8; 3]))));
+                if !kids.is_empty() { out.push((format!("{path}: last child missing"), rebuild(Value::from_vector(kids[..kids.len() - 1].to_vec())))); }
+                let mut more = kids.clone(); more.push(Value::from_bytes(vec![0u8; 1])); out.push((format!("{path}: one child too many"), rebuild(Value::from_vector(more))));
+                for (i, ct) in ts.iter().enumerate() {
+                    let kids2 = kids.clone();
+                    let rb = move |c: Value| { let mut k = kids2.clone(); k[i] = c; rebuild(Value::from_vector(k)) };
+                    damaged(ct, out, format!("{path}/{i}"), &rb);
+                }
+            }
+        }
+    }
+    let types: Vec<Type> = vec![scalar_type(UINT64), scalar_type(BIT), array_type(vec![5], BIT), array_type(vec![9], BIT), array_type(vec![2, 3], INT128), vector_type(3, scalar_type(UINT64)), vector_type(4, array_type(vec![3], BIT)), vector_type(0, scalar_type(INT32)), vector_type(1, scalar_type(INT32)),
+        vector_type(2, tuple_type(vec![scalar_type(UINT8), scalar_type(INT64)])), tuple_type(vec![]), tuple_type(vec![scalar_type(INT32), vector_type(3, array_type(vec![2], UINT16)), scalar_type(BIT)]),
+        named_tuple_type(vec![("a".to_owned(), vector_type(2, scalar_type(INT128))), ("b".to_owned(), tuple_type(vec![scalar_type(BIT), scalar_type(BIT)]))]), vector_type(2, vector_type(3, scalar_type(UINT32)))];
+    let _ = seed; let mut tried = 0;
+    for t in types.iter() {
+        let mut cases: Vec<(String, Value)> = vec![("valid value".to_owned(), build(t))];
+        damaged(t, &mut cases, "".to_owned(), &|v| v);
+        for (what, v) in cases {
+            tried += 1;
+            let want = reference(&v, t);
+            let got = catch_unwind(AssertUnwindSafe(|| v.check_type(t.clone())));
+            let obs = match got { Ok(Ok(b)) => if b == want { continue } else { format!("{}", b) }, Ok(Err(e)) => format!("Err({})", e), Err(_) => "panic".to_owned() };
+            return json!({"found": true, "routine": "layout_ref", "property": "C13", "input": {"type": format!("{}", t), "value": what}, "expected": format!("check_type == {}", want), "observed": obs, "what": "Value::check_type vs. an independent layout reference"});
+        }
+    }
+    json!({"found": false, "routine": "layout_ref", "tried": tried})
+}
+
 fn main() {
     let args: Vec<String> = std::env::args().collect();
     let seed: u64 = args.get(2).and_then(|s| s.parse().ok()).unwrap_or(0);
@@ -1707,6 +1764,7 @@ fn main() {
         Some("cmp_small_widths") => cmp_small_widths(seed),
         Some("share_roundtrip") => share_roundtrip(seed),
         Some("prng_stream") => prng_stream(seed),
+        Some("layout_ref") => layout_ref(seed),
         Some("matmul_ref") => matmul_ref(seed),
         Some("optimizer_equiv") => optimizer_equiv(seed),
         Some("perm_roundtrip") => perm_roundtrip(seed),
